@@ -1007,3 +1007,13 @@ S("V35", "C19", "C19-r9a", "R-C19-SIEVE", "ntheory_util.Sieve was 'optimised' to
 S("V36", "C19", "C19-r9b", "R-C19-HENSEL", "ntheory_util.InverseSqrt2exp: the brute-force special case for k < 3 and the separate `n %")
 S("V37", "C20", "C20-r9a", "R-C20-CONST", "In TruncLcgRand.RandomBits the LCG step was 'optimised' to use a hoisted bit mask, but the")
 S("V38", "C20", "C20-r9b", "R-C20-PURE", "XorShiftStar.RandomBits now treats a reduced 64-bit state of 0 like a missing seed: x = se")
+
+
+# ---------------------------------------------------------------------------------- names that resolve nowhere (NameError)
+F("U10", "C12", NS, "  rows = util.SplitSequence(bits, n, c)\n", "  matrix_rows = util.SplitSequence(bits, n, c)\n", "R-C12-DEFINED", "a local renamed at its binding only: the old name is read as a global that does not exist")
+F("U11", "C18", L + "rsa_util.py", "  prime_size = n.bit_length() // 2\n  # This implementation assumes", "  psize = n.bit_length() // 2\n  # This implementation assumes", "R-C18-DEFINED", "binding renamed, uses left behind")
+F("U12", "C12", NS, "  k = len(blocks) - q\n  mean, std = UniversalDistribution", "  k = len(blocks) - q - 1\n  mean, std = UniversalDistribution", "R-C12-UNIVERSAL", "the last block is never a test block")
+T("U13", "C12", NS, "  k = len(blocks) - q\n  mean, std = UniversalDistribution", "  total = len(blocks)\n  k = total - q\n  mean, std = UniversalDistribution", "K through a temporary")
+F("U14", "C12", NS, "    mat = rows[i * r:(i + 1) * r]", "    mat = rows[i * r:(i + 1) * r + 1]", "R-C12-CONSIST", "matrices of r + 1 rows that overlap")
+F("U15", "C12", NS, "    mat = rows[i * r:(i + 1) * r]", "    mat = rows[i:i + r]", "R-C12-CONSIST", "sliding instead of disjoint matrices")
+T("U16", "C12", NS, "    mat = rows[i * r:(i + 1) * r]", "    first = r * i\n    mat = rows[first:first + r]", "slice bounds through a temporary")
